@@ -10,7 +10,7 @@ pub fn def() -> PropDef {
 	PropDef {
 		id: "C08",
 		level: "exploration",
-		rule: "generated valid histories over mixed columns (hash, hash-rc, btree, btree-rc, multitree default / rc / append_only) with poisoned transactions inserted: valid operations of several columns plus ONE invalid operation at a generated position - Reference on a column without counting (hash and btree), tree operation on a non-tree column, Set/Reference/Dereference on a multitree column, DereferenceTree on an append-only column, DereferenceTree of a missing root, InsertTree with a node of 256/300 children - and any transaction submitted in the background-error state; followed by further commits, steps, drain, reopen. Oracle (conditional, as stated): IF the call returned Err, the full observation (all gets and sizes, btree iteration, every tree traversal, entry counts) is identical to the one taken right before the call, stays equal to the model (which ignores the transaction) after every later op, and after drain the raw layout reader's slot accounting holds (nothing consumed: no leaked/orphan slot) and after reopen nothing of it appears. Non-trivial = the rejected transaction contained >=1 valid operation BEFORE the invalid one (partial publication possible); distinct = distinct case fingerprints",
+		rule: "generated valid histories over mixed columns (hash, hash-rc, btree, btree-rc, multitree default / rc / append_only) with poisoned transactions inserted: valid operations of several columns plus ONE invalid operation at a generated position - Reference on a column without counting (hash and btree), tree operation on a non-tree column, Set/Reference/Dereference on a multitree column, DereferenceTree on an append-only column, DereferenceTree of a missing root, ReferenceTree on a multitree column without counted roots, InsertTree with a node of 256/300 children - and any transaction submitted in the background-error state; followed by further commits, steps, drain, reopen. Oracle (conditional, as stated): IF the call returned Err, the full observation (all gets and sizes, btree iteration, every tree traversal, entry counts) is identical to the one taken right before the call, stays equal to the model (which ignores the transaction) after every later op, and after drain the raw layout reader's slot accounting holds (nothing consumed: no leaked/orphan slot) and after reopen nothing of it appears. Non-trivial = the rejected transaction contained >=1 valid operation BEFORE the invalid one (partial publication possible); distinct = distinct case fingerprints",
 		assumptions: &[
 			"if a poisoned transaction is accepted (Ok) the scenario is discarded and counted (the property is conditional on an error being returned)",
 			"the background-error state is entered through the verif_store_err hook, which runs the same store_err path a failing worker runs",
@@ -43,6 +43,7 @@ fn bad_op() -> impl Strategy<Value = BadOp> {
 		2 => (any::<u8>(), any::<u16>()).prop_map(|(c, k)| BadOp::DerefAppendOnly(c, k)),
 		3 => (any::<u8>(), 100u16..120).prop_map(|(c, k)| BadOp::DerefMissingRoot(c, k)),
 		2 => (any::<u8>(), 0u16..12, prop_oneof![Just(256u16), Just(300u16)]).prop_map(|(c, k, n)| BadOp::OversizeInsert(c, k, n)),
+		2 => (any::<u8>(), any::<u16>()).prop_map(|(c, k)| BadOp::RefTreeOnPlainMulti(c, k)),
 	]
 }
 
@@ -119,6 +120,15 @@ fn bad_operation(it: &Interp, bad: &BadOp) -> Option<(u8, Operation<Vec<u8>, Vec
 			let col = pick_col(cfg, *c, |c| c.kind == Kind::Multi && !c.append_only)?;
 			// ids >= 100 are never used as root keys by the generators
 			Some((col, Operation::DereferenceTree(cfg.cols[col as usize].key(*k))))
+		},
+		BadOp::RefTreeOnPlainMulti(c, sel) => {
+			let col = pick_col(cfg, *c, |c| c.kind == Kind::Multi && !c.append_only && !c.rc)?;
+			let roots: Vec<u16> = match &it.model.cols[col as usize] {
+				ColModel::Multi(m) => m.roots.keys().cloned().collect(),
+				_ => vec![],
+			};
+			let root = if roots.is_empty() { 3 } else { roots[pick(*sel, roots.len())] };
+			Some((col, Operation::ReferenceTree(cfg.cols[col as usize].key(root))))
 		},
 		BadOp::OversizeInsert(c, k, n) => {
 			let col = pick_col(cfg, *c, |c| c.kind == Kind::Multi)?;
@@ -200,6 +210,7 @@ pub fn run_scenario(sc: &Scenario, dir: &Path) -> CaseResult {
 							BadOp::DerefAppendOnly(..) => "bad:deref-append-only",
 							BadOp::DerefMissingRoot(..) => "bad:deref-missing-root",
 							BadOp::OversizeInsert(..) => "bad:oversize-node",
+							BadOp::RefTreeOnPlainMulti(..) => "bad:reference-tree-on-uncounted-multitree",
 						});
 						let after = full_obs(&it)?;
 						if after != before {
